@@ -501,3 +501,8 @@ Proof.
   - vm_compute. repeat constructor; cbn; intuition discriminate.
   - vm_compute. reflexivity.
 Qed.
+
+(* the generated facts this property uses were lifted from the current source *)
+Theorem C16_generated_facts_present : GEN_CONNECTORS_OK = true.
+Proof. reflexivity. Qed.
+Print Assumptions C16_generated_facts_present.
